@@ -564,6 +564,7 @@ struct Cx {
     long_streams: u64, // longer streams per protocol
     cover_streams: u64, // streams of 4 messages drawn so that every message kind shows up
     broken: u64,        // streams abandoned after an error / starvation (each costs a timeout)
+    cancel_ms: u64,     // old stack: timeout of the extra, cancelled recv_full_msg polls (0 = none)
     big: bool,         // include streams spanning several 64 KiB segments
     rt: tokio::runtime::Runtime,
     stats: HashMap<String, u64>,
@@ -768,7 +769,10 @@ fn bump(cx: &mut Cx, k: &str, n: u64) {
 // ----------------------------------------------------------- old stack driver
 const OLD_PROTO_ID: u16 = 5;
 
-async fn old_cutset<M: Fragment>(s: &Stream, segs: &[usize], ev: &mut Vec<Value>) {
+/// `cancel_ms` > 0: whenever the bytes fed so far end in the middle of a message, the receiver is also polled
+/// under a short timeout and the future dropped (a client using select! / timeout around recv_full_msg):
+/// nothing may be handed over and nothing already received may be lost.
+async fn old_cutset<M: Fragment>(s: &Stream, segs: &[usize], cancel_ms: u64, ev: &mut Vec<Value>) {
     let (sa, sb) = tokio::net::UnixStream::pair().unwrap_or_else(|e| die(&format!("socketpair: {e}")));
     let mut pa = Plexer::new(Bearer::Unix(sa));
     let mut pb = Plexer::new(Bearer::Unix(sb));
@@ -781,6 +785,7 @@ async fn old_cutset<M: Fragment>(s: &Stream, segs: &[usize], ev: &mut Vec<Value>
     let mut delivered = 0usize;
     let patience = Duration::from_secs(10);
     let mut broken = false;
+    let ends = s.ends();
     'segs: for n in segs {
         let seg = bytes[fed..fed + n].to_vec();
         if let Err(e) = tx.enqueue_chunk(seg).await {
@@ -810,6 +815,22 @@ async fn old_cutset<M: Fragment>(s: &Stream, segs: &[usize], ev: &mut Vec<Value>
                 Err(_) => {
                     ev.push(json!({"ev": "seg", "c": 1, "n": n, "out": out}));
                     ev.push(json!({"ev": "starved", "fed": fed, "delivered": delivered, "after_s": patience.as_secs()}));
+                    broken = true;
+                    break 'segs;
+                }
+            }
+        }
+        if cancel_ms > 0 && !ends.contains(&fed) {
+            match tokio::time::timeout(Duration::from_millis(cancel_ms), rx.recv_full_msg::<M>()).await {
+                Err(_) => {} // dropped between two segments of a message
+                Ok(Ok(m)) => {
+                    // a message although its last byte was not fed: logged, TLC rejects
+                    out.push(minicbor::to_vec(&m).map(|e| digest(&e) as i64).unwrap_or(-1));
+                    delivered += 1;
+                }
+                Ok(Err(e)) => {
+                    ev.push(json!({"ev": "seg", "c": 1, "n": n, "out": out}));
+                    ev.push(json!({"ev": "error", "at": "recv_full_msg (cancelled poll)", "err": format!("{e:?}"), "fed": fed, "delivered": delivered}));
                     broken = true;
                     break 'segs;
                 }
@@ -878,7 +899,11 @@ fn old_proto<M: Fragment + Debug + Gen>(cx: &mut Cx, proto: &str) {
         for (k, cuts) in sets.iter().enumerate() {
             let segs = segs_of(s.total(), cuts);
             let mut ev = vec![json!({"ev": "cuts", "sid": sid, "k": k})];
-            cx.rt.block_on(old_cutset::<M>(&s, &segs, &mut ev));
+            let cancel = if k % 2 == 1 && segs.len() <= 6 { cx.cancel_ms } else { 0 };
+            cx.rt.block_on(old_cutset::<M>(&s, &segs, cancel, &mut ev));
+            if cancel > 0 {
+                bump(cx, "old_cutsets_with_cancelled_polls", 1);
+            }
             let bad = ev.iter().any(|e| matches!(e["ev"].as_str(), Some("starved") | Some("error") | Some("extra")));
             for e in ev {
                 cx.out.ev(e);
@@ -1141,6 +1166,7 @@ pub fn trace(args: &Args) {
         long_streams: args.num("long", 1),
         cover_streams: args.num("cover", 3),
         broken: 0,
+        cancel_ms: args.num("cancel", 3),
         big: args.num("big", 1) == 1,
         rt,
         stats: HashMap::new(),
